@@ -10,7 +10,7 @@
 //                                          zone premise of the local-time theorem: every change of (gmtoff,isdst,abbr) in
 //                                          2001..2100 happens at a multiple of P seconds and every offset is a multiple of P
 //   case <id> <G|L> <zone> <class> <pattern-hex|->
-//   ctor => ok | err X | err excl
+//   ctor => ok | err X | err excl | err once
 //   t <ns> <gmtoff> <isdst> <abbr-hex> => <rendered-hex|->
 //   ORACLE <what> case=… class=… …      the property itself fails on the real code (independent oracle:
 //                                       gmtime_r/localtime_r + strftime per call + snprintf of the fraction)
@@ -299,6 +299,7 @@ static void run_case(Case const& c)
   {
     std::string w = e.what();
     if (w.find("mutually exclusive") != std::string::npos) ctor = "err excl";
+    else if (w.find("only once") != std::string::npos) ctor = "err once";
     else if (w.find("%X") != std::string::npos) ctor = "err X";
     else ctor = "err other:" + hex(w);
   }
